@@ -21,7 +21,7 @@ type c10Cfg struct {
 	MaxL    int   `json:"max_len"`
 }
 
-var c10Times = []int64{10000, 10500, 12000, 12001, 12500, 15000, 20000}
+var c10Times = []int64{10000, 10500, 12000, 12001, 12500, 15000, 16000, 20000}
 
 func c10Configs(tier string) []c10Cfg {
 	maxL := 4
@@ -79,7 +79,21 @@ func c10Deliveries(r detResult) []c10Delivery {
 }
 
 // c10Check applies exactly the constraints the property states.
-func c10Check(c c10Cfg, evs []ref.Event, ds []c10Delivery, eager bool) (kind, what string) {
+// c10Check returns every constraint that fails (one entry per kind), so that a known finding of
+// one kind cannot hide a different violation in the same run.
+func c10Check(c c10Cfg, evs []ref.Event, ds []c10Delivery, eager bool) (fails [][2]string) {
+	seen := map[string]bool{}
+	add := func(kind, what string) {
+		if !seen[kind] {
+			seen[kind] = true
+			fails = append(fails, [2]string{kind, what})
+		}
+	}
+	c10CheckInto(c, evs, ds, eager, add)
+	return fails
+}
+
+func c10CheckInto(c c10Cfg, evs []ref.Event, ds []c10Delivery, eager bool, add func(kind, what string)) {
 	acc := ref.Accepted(evs, c.OOOMs)
 	byID := map[int]ref.Event{}
 	accepted := map[int]bool{}
@@ -93,13 +107,14 @@ func c10Check(c c10Cfg, evs []ref.Event, ds []c10Delivery, eager bool) (kind, wh
 			continue
 		}
 		if len(d.IDs) == 0 {
-			return "empty-session", fmt.Sprintf("session result without rows: %+v", d)
+			add("empty-session", fmt.Sprintf("session result without rows: %+v", d))
+			continue
 		}
 		var ts []int64
 		for _, id := range d.IDs {
 			e, ok := byID[id]
 			if !ok || e.Key != d.Key {
-				return "foreign-row", fmt.Sprintf("row %d reported in a session of key %s", id, d.Key)
+				add("foreign-row", fmt.Sprintf("row %d reported in a session of key %s", id, d.Key))
 			}
 			count[id]++
 			ts = append(ts, e.TS)
@@ -107,21 +122,21 @@ func c10Check(c c10Cfg, evs []ref.Event, ds []c10Delivery, eager bool) (kind, wh
 		sort.Slice(ts, func(i, j int) bool { return ts[i] < ts[j] })
 		for i := 1; i < len(ts); i++ {
 			if ts[i]-ts[i-1] > c.Timeout {
-				return "gap-not-split", fmt.Sprintf("session of key %s reports rows %v with consecutive timestamps %d and %d further apart than the timeout %d", d.Key, d.IDs, ts[i-1], ts[i], c.Timeout)
+				add("gap-not-split", fmt.Sprintf("session of key %s reports rows %v with consecutive timestamps %d and %d further apart than the timeout %d", d.Key, d.IDs, ts[i-1], ts[i], c.Timeout))
 			}
 		}
 		if d.WS != ts[0] {
-			return "window-start", fmt.Sprintf("window_start %d is not the earliest timestamp %d of the reported rows %v", d.WS, ts[0], d.IDs)
+			add("window-start", fmt.Sprintf("window_start %d is not the earliest timestamp %d of the reported rows %v", d.WS, ts[0], d.IDs))
 		}
 		if d.WE != ts[len(ts)-1]+c.Timeout {
-			return "window-end", fmt.Sprintf("window_end %d is not latest timestamp %d + timeout %d (rows %v)", d.WE, ts[len(ts)-1], c.Timeout, d.IDs)
+			add("window-end", fmt.Sprintf("window_end %d is not latest timestamp %d + timeout %d (rows %v)", d.WE, ts[len(ts)-1], c.Timeout, d.IDs))
 		}
 		// delivered only after the watermark passed the end: watermark over the rows whose
 		// Emit had been issued when the delivery happened
 		if eager {
 			wm := ref.FinalWatermark(evs[:d.AtOps], c.OOOMs)
 			if d.AtOps == 0 || wm < d.WE {
-				return "delivered-before-watermark", fmt.Sprintf("session [%d,%d) delivered after %d emits, watermark then %d", d.WS, d.WE, d.AtOps, wm)
+				add("delivered-before-watermark", fmt.Sprintf("session [%d,%d) delivered after %d emits, watermark then %d", d.WS, d.WE, d.AtOps, wm))
 			}
 		}
 	}
@@ -130,13 +145,12 @@ func c10Check(c c10Cfg, evs []ref.Event, ds []c10Delivery, eager bool) (kind, wh
 			continue
 		}
 		if accepted[e.ID] && count[e.ID] == 0 {
-			return "accepted-row-missing", fmt.Sprintf("accepted row %d (key %s, ts %d) is in no session result", e.ID, e.Key, e.TS)
+			add("accepted-row-missing", fmt.Sprintf("accepted row %d (key %s, ts %d) is in no session result", e.ID, e.Key, e.TS))
 		}
 		if count[e.ID] > 1 {
-			return "row-twice", fmt.Sprintf("row %d reported in %d session results", e.ID, count[e.ID])
+			add("row-twice", fmt.Sprintf("row %d reported in %d session results", e.ID, count[e.ID]))
 		}
 	}
-	return "", ""
 }
 
 func c10InOrder(evs []ref.Event) bool {
@@ -233,7 +247,8 @@ func (c10) Run(u fw.Unit) fw.Result {
 					ds := c10Deliveries(r)
 					canon[pi] = c10Canon(ds)
 					a.outcome(canon[pi])
-					if kind, what := c10Check(c, evs, ds, eager); kind != "" {
+					for _, f := range c10Check(c, evs, ds, eager) {
+						kind, what := f[0], f[1]
 						sig := "C10|session|" + kind
 						if kind == "window-start" {
 							sig += fmt.Sprintf("|out-of-order-arrival=%v", strings.Contains(c10Shape(c, evs), "out-of-order=true"))
@@ -262,7 +277,7 @@ func (c10) Run(u fw.Unit) fw.Result {
 func (c10) Describe(tier string) fw.Description {
 	return fw.Description{
 		Level: "model_checking",
-		Rule: "bounded-exhaustive: all arrival sequences of length 1..L over 7 timestamps (gaps below / equal to / 1 ms above the timeout, out-of-order arrivals) x timeout 2s|3s x MAXOUTOFORDERNESS 0|3s x key assignments over 1..2 keys, followed by a far sentinel of another key; each run under BOTH feed policies (lazy: all rows emitted before the expiry goroutine runs; eager: every goroutine runs to quiescence after each Emit) on the real engine with the virtual clock; oracle = exactly the stated constraints (each accepted row in exactly one session of its key, consecutive reported timestamps <= timeout apart, window_start = earliest, window_end = latest + timeout, delivered only once the watermark of the rows emitted so far >= end, eager == lazy for in-order input); a case = one input; non-trivial = >= 2 sessions delivered",
+		Rule: "bounded-exhaustive: all arrival sequences of length 1..L over 8 timestamps (gaps below / equal to / 1 ms above the timeout, out-of-order arrivals) x timeout 2s|3s x MAXOUTOFORDERNESS 0|3s x key assignments over 1..2 keys, followed by a far sentinel of another key; each run under BOTH feed policies (lazy: all rows emitted before the expiry goroutine runs; eager: every goroutine runs to quiescence after each Emit) on the real engine with the virtual clock; oracle = exactly the stated constraints (each accepted row in exactly one session of its key, consecutive reported timestamps <= timeout apart, window_start = earliest, window_end = latest + timeout, delivered only once the watermark of the rows emitted so far >= end, eager == lazy for in-order input); a case = one input; non-trivial = >= 2 sessions delivered",
 		Bounds:      map[string]any{"max_len": map[string]int{"quick": 4, "thorough": 5}, "timestamps_ms": c10Times},
 		Assumptions: []string{"ALLOWEDLATENESS = 0", "the schedule dimension is covered by the two extreme feed policies here and by C02's schedule exploration of the session window"},
 	}
